@@ -292,6 +292,11 @@ func Worker(o core.WorkerOpts) *core.Report {
 		c := Case{PI: gen.PI{Prog: g.Prog, In: g.In}, ModesSeed: r.Uint64()}
 		if r.IntN(5) == 0 {
 			c.Warm = warmVars(r, g)
+		} else if r.IntN(12) == 0 {
+			// account and asset VALUES no literal can spell (only variables carry them), ambiguous
+			// when joined: (X, Y/Z) against (X/Y, Z)
+			c.PI = gen.OddNames(r, c.PI)
+			l.Rep.Reach["odd_account_and_asset_values"]++
 		}
 		l.Current(caseSeed, c)
 		res := Execute(c, false)
